@@ -226,6 +226,37 @@ func findingTags(a Schema, o Observed) []string {
 	if descRefTargets(a) {
 		tags = append(tags, "shape:descriptor-ref-targets")
 	}
+	// F30: a struct nobody declared, of the name of a nested table declared in another package
+	if o.Stage == "ok" {
+		declared := map[string]string{} // nested table name -> declaring package
+		allTables(a, func(p *Pkg, w *Ws, root, t *Table, nested bool) {
+			if nested {
+				declared[t.Name] = p.Name
+			}
+		})
+		have := map[string]bool{}
+		allTables(a, func(p *Pkg, w *Ws, root, t *Table, nested bool) { have[p.Name+"."+t.Name] = true })
+		for _, it := range o.Dump.Items {
+			if i := strings.LastIndex(it.QName, "."); it.Class == "struct" && i > 0 && !have[it.QName] && !strings.HasSuffix(it.QName, "Descriptor") {
+				if dp, ok := declared[it.QName[i+1:]]; ok && dp != it.QName[:i] {
+					tags = append(tags, "F30:inherited-nested-table-renamed-to-heir-package")
+				}
+			}
+		}
+	}
+	// F31, F32: refused with exactly these messages
+	if o.Stage != "ok" && o.Err != "" {
+		only := true
+		for _, l := range strings.Split(strings.TrimSpace(o.Err), "\n") {
+			only = only && strings.HasSuffix(l, "circular reference in INHERITS")
+		}
+		if only {
+			tags = append(tags, "F31:diamond-below-heir-refused-as-circular")
+		}
+	}
+	if o.Stage != "ok" && strings.Contains(o.Err, "undefined field") && grantsInheritedColumn(a) {
+		tags = append(tags, "F32:grant-on-inherited-column-refused")
+	}
 	return uniqTags(tags)
 }
 
@@ -472,4 +503,43 @@ func Generate(seed uint64, n int, tier, corpusDir string, shard int, out *kit.Ou
 		runCase(a, kind, out)
 	}
 	return nil
+}
+
+// does a GRANT ... ON TABLE name a column the table does not declare itself?
+func grantsInheritedColumn(a Schema) bool {
+	own := map[string]map[string]bool{}
+	allTables(a, func(p *Pkg, w *Ws, root, t *Table, nested bool) {
+		m := map[string]bool{}
+		for _, it := range t.Items {
+			switch {
+			case it.Field != nil:
+				m[it.Field.Name] = true
+			case it.Ref != nil:
+				m[it.Ref.Name] = true
+			}
+		}
+		own[p.Name+"."+t.Name] = m
+	})
+	for _, x := range allWs(a) {
+		for _, i := range x.w.Items {
+			if i.Grant == nil || i.Grant.What.Q == nil || (i.Grant.What.K != "table" && i.Grant.What.K != "tableall") {
+				continue
+			}
+			pp := i.Grant.What.Q.Pkg
+			if pp == "" {
+				pp = x.p.Name
+			}
+			m := own[pp+"."+i.Grant.What.Q.Name]
+			cols := append([]string{}, i.Grant.What.Cols...)
+			for _, act := range i.Grant.What.Acts {
+				cols = append(cols, act.Cols...)
+			}
+			for _, c := range cols {
+				if m != nil && !m[c] && !strings.HasPrefix(c, "sys.") {
+					return true
+				}
+			}
+		}
+	}
+	return false
 }
